@@ -608,7 +608,8 @@ class Data(Field):
             search_buffer = raw[offset:]
 
         count = search_buffer.find(until_marker)
-        assert count >= 0
+        if count < 0:
+            raise Exception("The delimiter %r was not found" % (until_marker, ))
 
         extra_count = 0
         if self.include_delimiter:
@@ -648,7 +649,9 @@ class Data(Field):
                         extra_count = match.end() - count
                     self.delimiter_to_be_included = match.group()
             else:
-                assert False
+                raise Exception(
+                    "The delimiter %r was not found" % (until_marker.pattern, )
+                )
 
         next_offset = offset + count
         setattr(pkt, self.field_name, raw[offset:next_offset])
